@@ -1,5 +1,9 @@
-(* C02 option-decoding model driver.  One command line per input line (argv words separated
-   by blanks; an empty line is "no optimisation argument").  Output, one line each:
+(* C02 model driver.  One command per input line:
+     opts <argv words>          the option model (no word = no optimisation argument)
+     cfold <0|1> <expr>         Fold.cfold with cfoldFoldAll = the flag
+     peep <0|1> <expr>          Peep.peep with foldfloats = the flag; answers "ok <expr>" or
+                                "swap <expr>" (an operand exchange without swap_ok happened)
+   Output of opts, one line each:
      ERR                                     the model rejects the sequence (usage error)
      lvl=<n>|name=v,name=v,...|label;label   optLevel, the table -WD+optf prints, the pass trace
    Every value comes from the extracted definitions; the driver converts strings/numerals. *)
@@ -26,8 +30,7 @@ let int_of_z = function Z0 -> 0 | Zpos p -> int_of_pos p | Zneg p -> - (int_of_p
 
 let show_val = function V z -> string_of_int (int_of_z z) | VAtof (_, _) -> "?"
 
-let doline line =
-  let ws = List.filter (fun w -> w <> "") (Stdlib.String.split_on_char ' ' (Stdlib.String.trim line)) in
+let opts_line ws =
   match opt_state (List.map to_coq ws) with
   | None -> "ERR"
   | Some f ->
@@ -36,6 +39,59 @@ let doline line =
       | None -> "?"
       | Some l -> Stdlib.String.concat ";" (List.map of_coq l) in
     "lvl=" ^ string_of_int (int_of_z f.lvl) ^ "|" ^ tbl ^ "|" ^ tr
+
+(* expressions of the Fold/Peep fragment, as s-expressions:
+   (C ty z) (V ty id) (L ty id fx) (B op e...) (K ty e) *)
+let rec nat_of_int n = if n <= 0 then O else S (nat_of_int (n - 1))
+let rec int_of_nat = function O -> 0 | S n -> 1 + int_of_nat n
+
+let tokenize (s : Stdlib.String.t) : Stdlib.String.t list =
+  let b = Buffer.create 16 and out = ref [] in
+  let flush () = if Buffer.length b > 0 then (out := Buffer.contents b :: !out; Buffer.clear b) in
+  Stdlib.String.iter (fun c ->
+    match c with
+    | '(' | ')' -> flush (); out := Stdlib.String.make 1 c :: !out
+    | ' ' | '\t' -> flush ()
+    | c -> Buffer.add_char b c) s;
+  flush (); List.rev !out
+
+let rec parse toks =
+  match toks with
+  | "(" :: "C" :: t :: z :: ")" :: r -> (Const (ty_of_name (to_coq t), z_of_dec (to_coq z)), r)
+  | "(" :: "V" :: t :: x :: ")" :: r -> (Var (ty_of_name (to_coq t), nat_of_int (int_of_string x)), r)
+  | "(" :: "L" :: t :: x :: f :: ")" :: r -> (Leaf (ty_of_name (to_coq t), nat_of_int (int_of_string x), f = "1"), r)
+  | "(" :: "K" :: t :: r -> let (e, r') = parse r in
+    (match r' with ")" :: r'' -> (Cast0 (ty_of_name (to_coq t), e), r'') | _ -> failwith "parse K")
+  | "(" :: "B" :: op :: r ->
+    let rec args r acc = match r with
+      | ")" :: r' -> (List.rev acc, r')
+      | _ -> let (e, r') = parse r in args r' (e :: acc) in
+    let (l, r') = args r [] in (BCall (to_coq op, l), r')
+  | _ -> failwith "parse"
+
+let rec show = function
+  | Const (t, z) -> "(C " ^ of_coq (name_of_ty t) ^ " " ^ of_coq (z_to_dec z) ^ ")"
+  | Var (t, x) -> "(V " ^ of_coq (name_of_ty t) ^ " " ^ string_of_int (int_of_nat x) ^ ")"
+  | Leaf (t, x, f) -> "(L " ^ of_coq (name_of_ty t) ^ " " ^ string_of_int (int_of_nat x) ^ " " ^ (if f then "1" else "0") ^ ")"
+  | BCall (op, l) -> "(B " ^ of_coq op ^ Stdlib.String.concat "" (List.map (fun e -> " " ^ show e) l) ^ ")"
+  | Cast0 (t, e) -> "(K " ^ of_coq (name_of_ty t) ^ " " ^ show e ^ ")"
+
+let doline line =
+  let ws = List.filter (fun w -> w <> "") (Stdlib.String.split_on_char ' ' (Stdlib.String.trim line)) in
+  match ws with
+  | "opts" :: r -> opts_line r
+  | "cfold" :: fa :: _ ->
+    let i = Stdlib.String.index line '(' in
+    let (e, _) = parse (tokenize (Stdlib.String.sub line i (Stdlib.String.length line - i))) in
+    show (tool_cfold (fa = "1") e)
+  | "peep" :: ff :: _ ->
+    let i = Stdlib.String.index line '(' in
+    let (e, _) = parse (tokenize (Stdlib.String.sub line i (Stdlib.String.length line - i))) in
+    let (e', ok) = tool_peep (ff = "1") e in
+    (if ok then "ok " else "swap ") ^ show e'
+  | ["fragops"] -> Stdlib.String.concat " " (List.map of_coq frag_ops)
+  | ["fxops"] -> Stdlib.String.concat " " (List.map of_coq fx_ops)
+  | _ -> "BAD"
 
 let () =
   try
